@@ -213,10 +213,14 @@ def register(R):
                 c.newf('_count') == c.oldf('_count'), low1 == low0, n1 == n0 + 1)),
             'newest_token_untouched': z3.Select(sq1, k) == z3.Select(sq0, k),
             'other_tags_untouched': unchanged_except(c, k),
+            # monitor wake-up rule (no lost wake-up, C04): a critical section that frees capacity -- the only thing a
+            # blocked acquire waits for -- notifies the condition before it releases the lock
+            'freed_capacity_is_signalled_to_waiters': (implies(c.newf('_count') > c.oldf('_count'), z3.BoolVal(any(
+                e.kind == 'ext' and e.name == 'condition.notify' for e in c.trace))), ['C04', 'C12']),
         }
 
     R.contract(
-        f'{SWS}.release', props=['C12', 'C10', 'C11'], self_type=SH, old_at='acquire', top=True,
+        f'{SWS}.release', props=['C12', 'C10', 'C11', 'C04'], self_type=SH, old_at='acquire', top=True,
         params=dict(tag=ExtT('tag'), acquire_token=Int),
         # call-site precondition (BoundedExecutor.submit releases each token once): a token that is
         # still pending is not released a second time
